@@ -32,7 +32,11 @@ func (b *buffer) currentTag() Tag {
 
 // nextTag returns the next tag in tagBuffer
 func (b *buffer) nextTag() Tag {
-	return b.tag[b.pos+1]
+	if b.pos+1 < b.len {
+		return b.tag[b.pos+1]
+	}
+	// entries at or beyond len are leftovers of earlier use, not pending tags
+	return Tag{}
 }
 
 // nextTag increments the position by 1
